@@ -654,7 +654,9 @@ def main():
     findings, fixed = load_known()
     repo = os.path.abspath(args.repo)
 
-    units = [u for u in reg.get("unit", []) if prop in u.get("props", [])]
+    units = [u for u in reg.get("unit", []) if prop in u.get("props", []) or prop == "ALL"]   # ALL: dev/seed runs only
+    if prop == "ALL":
+        args.no_evidence = True
     if args.only:
         units = [u for u in units if u["id"] == args.only]
     if tier == "quick":
